@@ -51,7 +51,7 @@ def blacklist(context, config):
                 if context.call_args_count > 0:
                     name = context.call_args[0]
                 else:
-                    name = context.call_keywords["name"]
+                    name = context.call_keywords.get("name")
         for check in blacklists[node_type]:
             for qn in check["qualnames"]:
                 if name is not None and name == qn:
